@@ -449,6 +449,17 @@ theorem parse_print_aux (g : Grammar) : ∀ (t : G), wb g t = true →
     rw [e]
     simpa [G.print, List.append_assoc] using h2
 
+/-- the backend reads the printed form of a well-bracketed tree back as that tree -/
+theorem parse_print (g : Grammar) (t : G) (h : wb g t = true) : parse g t.print = some t := by
+  have hl : parseLoop g 1 0 t [] = some (t, []) :=
+    parseLoop_stop g 0 0 t [] (by simp [follower, stops])
+  have h1 := parse_print_aux g t h 0 [] 1 (t, []) (wb_leftOK_zero g t h)
+    (by simpa [follower] using wb_rightOK_none g t h) hl
+  have h2 : parseExpr g (fuelFor t.print) 0 t.print = some (t, []) := by
+    have := parseExpr_mono g h1 (f' := fuelFor t.print) (by have := cost_le t; simp [fuelFor]; omega)
+    simpa using this
+  simp [parse, h2]
+
 /-! ### re-association and full parenthesisation -/
 
 theorem print_foldl_inf (s : Sym) (xs : List (String × G)) (a : G) :
